@@ -1,0 +1,39 @@
+//go:build verif
+
+package light
+
+import (
+	cmtlight "github.com/cometbft/cometbft/light"
+	cmtlightprovider "github.com/cometbft/cometbft/light/provider"
+	cmtlightstore "github.com/cometbft/cometbft/light/store"
+
+	"github.com/oasisprotocol/oasis-core/go/consensus/cometbft/common"
+)
+
+// Export for the external deterministic-simulation harness (build tag "verif" only).
+
+// VerifNewClient creates a light client on top of the given light block providers and trusted
+// store, configured like NewClient does (lazy initialization, pruned store, retry attempts),
+// but without the libp2p provider pool.
+func VerifNewClient(
+	chainID string,
+	trustOptions cmtlight.TrustOptions,
+	primary cmtlightprovider.Provider,
+	witnesses []cmtlightprovider.Provider,
+	store cmtlightstore.Store,
+) (*Client, error) {
+	lightClient, err := newLazyClient(
+		chainID,
+		trustOptions,
+		primary,
+		witnesses,
+		newPrunedStore(store, storeHighWatermark, storeLowWatermark),
+		cmtlight.MaxRetryAttempts(lcMaxRetryAttempts),
+		cmtlight.Logger(common.NewLogAdapter(true)),
+		cmtlight.DisableProviderRemoval(),
+	)
+	if err != nil {
+		return nil, err
+	}
+	return &Client{lightClient: lightClient}, nil
+}
